@@ -73,6 +73,9 @@ def pool_core(rng, n_extra):
 OPENS = {"dz": "dwz-partial", "nt": "nontrivial-types.o", "a1": "a1.out", "dz2": "dwz-partial", "dz21": "dwz-partial2-1", "dz31": "dwz-partial3-1"}
 
 
+DISTINCT = []
+
+
 def pool_dwarf():
     """DWARF values; all values of one file come from ONE Dwarf handle (values of different handles
     are unrelated, which 'dz2' -- the same file opened again -- also exercises)."""
@@ -102,6 +105,24 @@ def pool_dwarf():
             P.append(("%s,%s" % (h, q("[entry ?(raw parent ?TAG_partial_unit) parent] elem ?%d" % (k * 3))), "die"))
         P.append(("%s,%s" % (h, q("[entry ?(raw parent ?TAG_partial_unit) parent] relem ?0")), "die"))
         P.append(("%s,%s" % (h, q("[entry ?(raw parent ?TAG_partial_unit) parent parent* ?root] relem ?1")), "die"))
+    # values that are DIFFERENT by construction: the k-th and the l-th thing one enumeration yields (units of the main and of the
+    # supplementary file of a1.out -- both have a unit at offset 0 --, DIEs, symbols): no two of one group may compare equal
+    for h, enum, ty, ks in (("v:a1", "raw unit", "cu", range(6)), ("v:a1", "unit", "cu", range(3)), ("v:dz21", "raw unit", "cu", range(6)),
+                            ("v:a1", "raw entry", "die", range(0, 40, 5)), ("v:a1", "symbol", "sym", range(0, 30, 6)), ("v:dz", "raw unit", "cu", range(4))):
+        grp = []
+        fpath = os.path.join(common.REPO, "tests", OPENS[h[2:]])
+        dd = common.Driver()
+        try:
+            rc = dd.run("[%s] length" % enum, inp="d:" + common.hx(fpath), fuel=0, max=3, timeout=120)
+            have = int(rc["res"][0][-1]["v"]) if rc["st"] == "done" and rc["res"] else 0
+        finally:
+            dd.kill()
+        for k in ks:
+            if k >= have:
+                continue
+            sp = "%s,%s" % (h, q("[%s] elem ?%d" % (enum, k)))
+            P.append((sp, ty)); grp.append(sp)
+        DISTINCT.append(grp)
     d2 = "v:nt"
     P.append((d2, "dwarf"))
     for k in range(3):
@@ -324,6 +345,14 @@ def run(chk):
                     bad("named-constants-of-unrelated-domains-equal", a=desc(i), b=desc(j), da=di, db=dj)
                 elif vals[i]["f"] != vals[j]["f"]:
                     bad("equal-constants-render-differently", a=desc(i), b=desc(j), fa=vals[i]["f"], fb=vals[j]["f"])
+    # values that are different by construction
+    index = {sp: i for i, sp in enumerate(specs)}
+    for grp in DISTINCT:
+        ids = [index[sp] for sp in grp if sp in index]
+        for a in ids:
+            for b in ids:
+                if a < b and (B(eq, a, b) or B(eq, b, a)):
+                    bad("distinct-values-of-one-enumeration-compare-equal:%s" % types[a], a=desc(a), b=desc(b), specs=[specs[a], specs[b]])
     # the same by the WORDS the constants were written with (not by the domain the engine reports for them): two words of different
     # families (DW_DSC_label, DW_ORD_row_major) never denote equal constants
     import re as _re
